@@ -16,10 +16,8 @@ import shutil
 
 from . import aoefdoc, specs
 from .canontools import (
-    canon_diff,
     canon_diffs,
     is_inside,
-    loaded_path,
     norm_dir,
     recording_uuid,
     recordings_of,
